@@ -179,7 +179,7 @@ def fini (g : Geo) (w : Walk) (dt : Dtors) (t : Tree) : List Ev :=
 structure Keys where
   free : List Nat              -- the free list, head first
   live : Nat → Bool            -- `next == -1`
-  dtor : Dtors                 -- `destructor` field (not reset by dealloc)
+  dtor : Dtors                 -- `destructor` field (cleared by dealloc)
 
 def Keys.init (n : Nat) : Keys := { free := List.range n, live := fun _ => false, dtor := fun _ => none }
 
@@ -193,6 +193,6 @@ def Keys.alloc (s : Keys) (d : Option Nat) : Keys × Int :=
 def Keys.dealloc (g : Geo) (s : Keys) (key : Int) : Keys × Nat :=
   if key < 0 ∨ key ≥ g.nKeys then (s, 22)
   else if s.live key.toNat = false then (s, 22)
-  else ({ s with free := key.toNat :: s.free, live := upd s.live key.toNat false }, 0)
+  else ({ free := key.toNat :: s.free, live := upd s.live key.toNat false, dtor := upd s.dtor key.toNat none }, 0)
 
 end MythVerif.Tls
